@@ -13,6 +13,7 @@ CONSTANTS
   LimitOpts,    \* LZIPOptions::member_size values explored (bytes; 0 = None)
   WriteSizes,   \* sizes of write calls explored (bytes)
   MaxBytes,     \* bytes written per file, at most
+  MaxCalls,     \* write calls per file, at most
   MaxMembers,   \* length of the oracle cz
   CSizes,       \* compressed sizes of a member picked from
   Fars          \* subset of BOOLEAN: does the data contain matches at distances up to the dictionary size
@@ -57,7 +58,7 @@ InitWith(c) == cfg = c /\ ws = W0 /\ calls = <<>> /\ file = <<>> /\ phase = "wri
 Init == \E c \in Cfgs : InitWith(c)
 
 Write(n) ==
-  /\ phase = "write" /\ ws.total + n <= MaxBytes
+  /\ phase = "write" /\ ws.total + n <= MaxBytes /\ Len(calls) < MaxCalls
   /\ ws' = WriteLoop(cfg, ws, n) /\ ws'.nm < MaxMembers
   /\ calls' = Append(calls, <<"w", n>>)
   /\ UNCHANGED <<cfg, file, phase, rd>>
